@@ -9,6 +9,18 @@ CLAIMED = {
          "Generated-input search with an explicit reference model; every command prefix compared both directions (nothing invented, nothing missed). Sampled, depth/size bounded: not a proof.",
          "Trusts the reference interpreter (harness/src/refegg.rs) and the canonical dump built on the public read API; terms not represented are outside the claim.",
          "DESIGN.md 4/C01"),
+ "C03": ("differential property testing: generated monotone histories on a semi-naive and a naive engine, canonical dumps compared after every command and every single iteration; reference interpreter as third opinion; repo .egg corpus as extra seed programs (child processes)",
+         "Generated-input search with a differential oracle (the property is itself an equivalence between two configurations) observed at every iteration boundary; plus model comparison so a shared error is visible on the reference fragment.",
+         "Trusts the canonical dump (isomorphism up to class renaming); corpus files are filtered to the monotone fragment by a conservative textual test.",
+         "DESIGN.md 4/C03"),
+ "C13": ("model-based property testing: histories with subsume/delete/unions/re-insertions/push-pop in lockstep with a reference interpreter carrying a sticky subsumed bit; query/check/extract probes on clones",
+         "Generated histories against an explicit model, compared after every command; both directions (flag never dropped, never invented; deleted rows gone, nothing else changed).",
+         "Trusts refegg.rs; iterations in which a delete and a lookup/write of the same row coincide are order-dependent and discarded (counted); delete-containing programs run the engine with semi-naive off because they are not monotone.",
+         "DESIGN.md 4/C13"),
+ "C14": ("model-based + differential property testing: container programs (Vec/Set/MultiSet over eq-sorts, nested) in lockstep with the reference interpreter and semi-naive vs naive per iteration; generator includes the in-place-rebuild shapes (container literal patterns, collapsing wrappers)",
+         "Generated histories against model and against the naive configuration after every command/iteration.",
+         "Trusts refegg.rs container semantics (structural re-canonicalisation); Map/Pair not generated yet (Map key collisions are outside the claim).",
+         "DESIGN.md 4/C14"),
 }
 
 PENDING_REASON = "check not built yet in this round (work in progress; see DESIGN.md section 8 for the build order)"
